@@ -87,7 +87,7 @@ let run_file file tablefile =
             let sn = !s.Nucleo.snap in
             let ms = List.map (fun m -> Printf.sprintf "%d:%d" (i m.Nucleo.m_score) (i m.Nucleo.m_idx)) sn.Nucleo.sn_matches in
             let ds = List.map (fun m -> match Hashtbl.find_opt items (i sn.Nucleo.sn_sid, i m.Nucleo.m_idx) with Some g -> string_of_int g | None -> "UNINIT") sn.Nucleo.sn_matches in
-            push (Printf.sprintf "O p=%d c=%d m=%s d=%s inj=%d n=%d" (i sn.Nucleo.sn_pat) (i sn.Nucleo.sn_count)
+            push (Printf.sprintf "O p=%d c=%d m=%s d=%s inj=%d n=%d u=0" (i sn.Nucleo.sn_pat) (i sn.Nucleo.sn_count)
                     (if ms = [] then "-" else String.concat "," ms) (if ds = [] then "-" else String.concat "," ds)
                     (i (Nucleo.active_injectors !s)) (i !s.Nucleo.notifies + !inj_notifies))
           end
